@@ -66,6 +66,34 @@ def wf_fanin() -> Any:
                                    make_step("join", [Done], [StopEvent, None], join, num_workers=1)])
 
 
+def wf_queue_order() -> Any:
+    """three items for a single-worker step: two always wait in its queue; the fan-in keeps ARRIVAL order, so the result
+    shows in which order the restored queue was worked off"""
+    async def start(self, ctx, ev, inv):  # noqa: ANN001
+        for i in (0, 1, 2):
+            ctx.send_event(Work(uid=i))
+        return None
+
+    async def work(self, ctx, ev, inv):  # noqa: ANN001
+        await gate(f"work{ev.uid}")
+        return Done(uid=ev.uid)
+
+    async def join(self, ctx, ev, inv):  # noqa: ANN001
+        got = ctx.collect_events(ev, [Done, Done, Done])
+        if got is None:
+            return None
+        return StopEvent(result="order:" + ",".join(str(e.uid) for e in got))
+
+    async def keeper(self, ctx, ev, inv):  # noqa: ANN001
+        # keeps the run busy, so that it is never flagged idle (the recorded idle-flag finding would hide everything else)
+        await gate("keeper")
+        return None
+
+    return make_workflow("QueueOrder", [make_step("start", [StartEvent], [Work, None], start), make_step("keeper", [StartEvent], [None], keeper),
+                                        make_step("work", [Work], [Done], work, num_workers=1),
+                                        make_step("join", [Done], [StopEvent, None], join, num_workers=1)])
+
+
 def wf_retry() -> Any:
     async def s1(self, ctx, ev, inv):  # noqa: ANN001
         await gate("s1")
@@ -130,6 +158,7 @@ def wf_cancellable() -> Any:
 PROGRAMS: dict[str, dict[str, Any]] = {
     "chain": {"make": wf_chain, "expected": "chain:2", "responses": []},
     "fanin": {"make": wf_fanin, "expected": "fanin:10,20", "responses": []},
+    "queue_order": {"make": wf_queue_order, "expected": "order:0,1,2", "responses": []},
     "retry": {"make": wf_retry, "expected": "retry:2", "responses": []},
     "recover": {"make": wf_recover, "expected": "recovered:s1:ValueError", "responses": []},
     "wait": {"make": lambda: wf_wait(False), "expected": "wait:any:100", "responses": [("any", 100)]},
@@ -305,14 +334,15 @@ def programs(tier: str) -> list[Program]:
             # uninterrupted reference: every schedule must give the expected result
             ps.append(Program(f"{pname}/{backend}/uninterrupted", {"program": pname, "backend": backend, "crash_at": None},
                               (lambda ex, pname=pname, backend=backend: execute(ex, pname, backend, None)), max_dev=2 if q else 4))
-            for k in range(1, 26 if pname in ("fanin", "retry") else 18):
+            for k in range(1, 26 if pname in ("fanin", "retry", "queue_order") else 18):
                 ps.append(Program(f"{pname}/{backend}/crash_after_tick_{k:02d}", {"program": pname, "backend": backend, "crash_at": k},
                                   (lambda ex, pname=pname, backend=backend, k=k: execute(ex, pname, backend, k)),
                                   max_dev=(1 if q else 2)))
     return ps
 
 
-RULE = ("8 deterministic workflows (3-step chain, fan-out/fan-in with collect_events, zero-delay retries, catch_error recovery, waiter + "
+RULE = ("9 deterministic workflows (3-step chain, fan-out/fan-in with collect_events, three items queued for a single worker with an "
+        "order-sensitive fan-in, zero-delay retries, catch_error recovery, waiter + "
         "external response without / with requirements, a step failure that ends the run, a run cancelled by the client at any point) on the real server stack over MemoryWorkflowStore (instance survives) and "
         "SqliteWorkflowStore (file survives) x process stop right after the k-th persisted tick for every k up to the length of the log "
         "x a fresh stack resuming through PersistenceDecorator.launch() x all schedules of both phases within the deviation bound; the "
